@@ -310,8 +310,8 @@ theorem has_iff' {h : Halos V} {x : String} : h.has x = true ↔ x ∈ cnames h 
   · rintro ⟨p, hp, he⟩; exact ⟨p, hp, by simpa using he⟩
 
 theorem removeCol_ok {h : Halos V} {n : String} (hn : n ∈ cnames h) :
-    ∃ h', removeCol h n = .ok h' ∧ ∀ x, x ∈ cnames h' ↔ x ∈ cnames h ∧ x ≠ n := by
-  refine ⟨{ h with cols := h.cols.filter (fun p => p.1 != n) }, ?_, ?_⟩
+    ∃ h', removeCol h n = .ok h' ∧ (∀ x, x ∈ cnames h' ↔ x ∈ cnames h ∧ x ≠ n) ∧ h'.val = h.val := by
+  refine ⟨{ h with cols := h.cols.filter (fun p => p.1 != n) }, ?_, ?_, rfl⟩
   · unfold removeCol; simp [has_iff'.mpr hn]
   · intro x
     simp only [cnames, List.mem_map, List.mem_filter]
@@ -330,23 +330,25 @@ theorem reindexOne_ok (O : ValOps V) (cleaned : Bool) (h : Halos V) (ab : String
     (h1 : ("npstart" ++ ab) ∈ cnames h) (h2 : ("npout" ++ ab) ∈ cnames h)
     (h3 : cleaned = true → ("npstart" ++ ab ++ "_merge") ∈ cnames h ∧ ("npout" ++ ab ++ "_merge") ∈ cnames h) :
     ∃ h', reindexOne O cleaned h ab = .ok h' ∧
+      (∀ x, x ≠ "npstart" ++ ab → x ≠ "npout" ++ ab → h'.val x = h.val x) ∧
       ∀ x, x ∈ cnames h' ↔
         (x ∈ cnames h ∧ ¬ (cleaned = true ∧ (x = "npstart" ++ ab ++ "_merge" ∨ x = "npout" ++ ab ++ "_merge"))) ∨
         x = "npstart" ++ ab ∨ x = "npout" ++ ab := by
   obtain ⟨v1, hv1⟩ := read_ok h2
-  obtain ⟨ha, hra, hna⟩ := removeCol_ok h1
+  obtain ⟨ha, hra, hna, hva⟩ := removeCol_ok h1
   have ne1 : ("npout" ++ ab) ≠ ("npstart" ++ ab) := by rcases hab with rfl | rfl <;> decide
   have h2a : ("npout" ++ ab) ∈ cnames ha := (hna _).mpr ⟨h2, ne1⟩
-  obtain ⟨hb, hrb, hnb⟩ := removeCol_ok h2a
+  obtain ⟨hb, hrb, hnb, hvb⟩ := removeCol_ok h2a
   cases cleaned with
   | false =>
     have key : ∃ h', reindexOne O false h ab = .ok h' ∧
-        cnames h' = cnames hb ++ ["npstart" ++ ab, "npout" ++ ab] := by
+        cnames h' = cnames hb ++ ["npstart" ++ ab, "npout" ++ ab] ∧
+        (∀ x, x ≠ "npstart" ++ ab → x ≠ "npout" ++ ab → h'.val x = hb.val x) := by
       unfold reindexOne
       simp only [bind, Except.bind, hv1, hra, hrb, Bool.false_eq_true, if_false]
-      exact ⟨_, rfl, by simp [cnames]⟩
-    obtain ⟨h', hk, hkn⟩ := key
-    refine ⟨h', hk, ?_⟩
+      exact ⟨_, rfl, by simp [cnames], by intro x n1 n2; simp [n1, n2]⟩
+    obtain ⟨h', hk, hkn, hkv⟩ := key
+    refine ⟨h', hk, fun x n1 n2 => by rw [hkv x n1 n2, hvb, hva], ?_⟩
     intro x
     rw [hkn]
     · simp only [cnames, List.mem_append, List.mem_cons,
@@ -379,17 +381,18 @@ theorem reindexOne_ok (O : ValOps V) (cleaned : Bool) (h : Halos V) (ab : String
     have ne5 : ("npout" ++ ab ++ "_merge") ≠ ("npout" ++ ab) := by rcases hab with rfl | rfl <;> decide
     have ne6 : ("npout" ++ ab ++ "_merge") ≠ ("npstart" ++ ab ++ "_merge") := by rcases hab with rfl | rfl <;> decide
     have m1b : ("npstart" ++ ab ++ "_merge") ∈ cnames hb := (hnb _).mpr ⟨(hna _).mpr ⟨m1, ne2⟩, ne3⟩
-    obtain ⟨hc, hrc, hnc⟩ := removeCol_ok m1b
+    obtain ⟨hc, hrc, hnc, hvc⟩ := removeCol_ok m1b
     have m2c : ("npout" ++ ab ++ "_merge") ∈ cnames hc :=
       (hnc _).mpr ⟨(hnb _).mpr ⟨(hna _).mpr ⟨m2, ne4⟩, ne5⟩, ne6⟩
-    obtain ⟨hd, hrd, hnd⟩ := removeCol_ok m2c
+    obtain ⟨hd, hrd, hnd, hvd⟩ := removeCol_ok m2c
     have key : ∃ h', reindexOne O true h ab = .ok h' ∧
-        cnames h' = cnames hd ++ ["npstart" ++ ab, "npout" ++ ab] := by
+        cnames h' = cnames hd ++ ["npstart" ++ ab, "npout" ++ ab] ∧
+        (∀ x, x ≠ "npstart" ++ ab → x ≠ "npout" ++ ab → h'.val x = hd.val x) := by
       unfold reindexOne
       simp only [bind, Except.bind, hv1, hv2, hra, hrb, hrc, hrd, if_true]
-      exact ⟨_, rfl, by simp [cnames]⟩
-    obtain ⟨h', hk, hkn⟩ := key
-    refine ⟨h', hk, ?_⟩
+      exact ⟨_, rfl, by simp [cnames], by intro x n1 n2; simp [n1, n2]⟩
+    obtain ⟨h', hk, hkn, hkv⟩ := key
+    refine ⟨h', hk, fun x n1 n2 => by rw [hkv x n1 n2, hvd, hvc, hvb, hva], ?_⟩
     intro x
     rw [hkn]
     · simp only [cnames, List.mem_append, List.mem_cons,
@@ -441,7 +444,7 @@ theorem finish_ok (O : ValOps V) (cleaned : Bool) (loadAB : List String) (haloLc
             (∀ x, x ∈ cnames g → x ≠ "npstart" ++ ab ++ "_merge" → x ≠ "npout" ++ ab ++ "_merge" → x ∈ cnames g') ∧
             (∀ x, ¬ x ∈ cnames g → x ≠ "npstart" ++ ab → x ≠ "npout" ++ ab → ¬ x ∈ cnames g') := by
         intro g ab hab a1 a2 a3
-        obtain ⟨g', hg, hn⟩ := reindexOne_ok O cleaned g ab hab a1 a2 a3
+        obtain ⟨g', hg, _, hn⟩ := reindexOne_ok O cleaned g ab hab a1 a2 a3
         refine ⟨g', hg, ?_, ?_⟩
         · intro x hx n1 n2
           exact (hn x).mpr (Or.inl ⟨hx, fun hh => by rcases hh.2 with e | e; exact n1 e; exact n2 e⟩)
